@@ -245,6 +245,11 @@ pub fn finish(ctx: &Ctx, mut rep: Report) -> i32 {
             println!("VIOLATION property={} replay={}", ctx.prop, path);
             println!("  sig={sig}");
             println!("  what={}", one_line(&vs[0].what, 400));
+            if std::env::var("VERIF_SHOW_ALL").is_ok() {
+                for v in vs.iter().skip(1) {
+                    println!("  also={}", one_line(&v.what, 200));
+                }
+            }
             new_sigs.push(json!({"sig": sig, "n": vs.len(), "what": one_line(&vs[0].what, 300)}));
         }
     }
